@@ -128,10 +128,23 @@ function slotValAttrs(node) {
   return (node.slotVals || []).map((sv_) => (sv_.as === undefined ? `slot:${sv_.name}` : `slot:${sv_.name}="${sv_.as}"`))
 }
 
+function printHoisted(f, key, st) {
+  const [kind, i] = key.split(':')
+  if (kind === 'import') return `<import src="${spellStatic(f.imports[+i], '"', st)}"${st.rng && st.rng.bool(0.3) ? '></import>' : '/>'}`
+  if (kind === 'wxs') {
+    const w = f.wxs[+i]
+    return w.src !== undefined ? `<wxs module="${w.module}" src="${spellStatic(w.src, '"', st)}"/>` : `<wxs module="${w.module}">${w.code}</wxs>`
+  }
+  const d = f.defs[+i]
+  return `<template name="${spellStatic(d.name, '"', st)}">${printNodes(d.children, st)}</template>`
+}
+
 export function printNode(n, st, ctl) {
   switch (n.t) {
     case 'text': return printValue(n.v, null, st)
     case 'comment': return '<!--' + n.s + '-->'
+    // an <import> / <wxs> / <template name> written between other nodes: it renders nothing here (it belongs to the file)
+    case 'hoist': return printHoisted(st.file, n.key, st)
     case 'el': {
       const attrs = [...ctlAttrs(ctl, st), ...slotValAttrs(n), ...n.attrs.map((a) => attrText(attrSourceName(a), a.value, st))]
       return printTag(n.tag, attrs, n.children, st)
@@ -198,14 +211,34 @@ export function printNodes(nodes, st) {
 
 export function printFile(f, st) {
   let s = ''
-  for (const imp of f.imports || []) s += `<import src="${spellStatic(imp, '"', st)}"${st.rng && st.rng.bool(0.3) ? '></import>' : '/>'}`
-  for (const w of f.wxs || []) {
-    if (w.src !== undefined) s += `<wxs module="${w.module}" src="${spellStatic(w.src, '"', st)}"/>`
-    else s += `<wxs module="${w.module}">${w.code}</wxs>`
-  }
-  for (const d of f.defs || []) s += `<template name="${spellStatic(d.name, '"', st)}">${printNodes(d.children, st)}</template>`
+  const scattered = f.scattered || new Set()
+  const prevFile = st.file
+  st.file = f
+  ;(f.imports || []).forEach((_, i) => { if (!scattered.has('import:' + i)) s += printHoisted(f, 'import:' + i, st) })
+  ;(f.wxs || []).forEach((_, i) => { if (!scattered.has('wxs:' + i)) s += printHoisted(f, 'wxs:' + i, st) })
+  ;(f.defs || []).forEach((_, i) => { if (!scattered.has('def:' + i)) s += printHoisted(f, 'def:' + i, st) })
   s += printNodes(f.children, st)
+  st.file = prevFile
   return s
+}
+
+/** Move some of the file-level elements (<wxs>, <template name>, <import>) of `f` between its top-level nodes,
+ *  sometimes sandwiched between two static text nodes (which must stay two nodes). */
+export function scatterHoisted(rng, f) {
+  const keys = []
+  ;(f.imports || []).forEach((_, i) => keys.push('import:' + i))
+  ;(f.wxs || []).forEach((_, i) => keys.push('wxs:' + i))
+  ;(f.defs || []).forEach((_, i) => keys.push('def:' + i))
+  f.scattered = new Set()
+  for (const key of keys) {
+    if (!rng.bool(0.6)) continue
+    f.scattered.add(key)
+    const p = rng.int(f.children.length + 1)
+    const before = f.children[p - 1], after = f.children[p]
+    const free = (n) => !n || (n.t !== 'text' && n.t !== 'comment')
+    if (rng.bool(0.5) && free(before) && free(after)) f.children.splice(p, 0, { t: 'text', v: sv(rng.pick(['a', '{', 'x {', '&'])) }, { t: 'hoist', key }, { t: 'text', v: sv(rng.pick(['b', '{y}}', '{', '}}'])) })
+    else f.children.splice(p, 0, { t: 'hoist', key })
+  }
 }
 
 // ---- traversal --------------------------------------------------------------------------------------
@@ -248,6 +281,7 @@ export function shapeOfNode(n) {
   switch (n.t) {
     case 'text': return 'T' + vshape(n.v)
     case 'comment': return ''
+    case 'hoist': return 'H'
     case 'el': return `E[${n.attrs.map((a) => a.fam + vshape(a.value)).sort().join(',')}${(n.slotVals || []).length ? ',sv' : ''}](${shapeOfNodes(n.children)})`
     case 'block': return `K${n.slotAttr ? 's' : ''}(${shapeOfNodes(n.children)})`
     case 'tref': return `R${vshape(n.is)}${n.data ? 'd' : ''}`
